@@ -1,6 +1,7 @@
 #!/bin/bash
 # run_on_patch.sh <patch> <check ids...>: apply a patch to /repo, run the checks, undo it straight afterwards
 P=$1; shift
+export VERIF_EVIDENCE_DIR=${VERIF_EVIDENCE_DIR:-/tmp/verif_evidence_selftest}      # the committed evidence describes the unchanged tree
 git -C /repo apply $P || { echo PATCH-DOES-NOT-APPLY; exit 8; }
 trap 'git -C /repo checkout -- .' EXIT
 for id in "$@"; do /verif/check $id ${TIER:+--tier $TIER} 2>&1 | tail -${TAILN:-4}; echo "exit=$?"; done
